@@ -191,6 +191,19 @@ class Cell:
             raise AnalysisError('emit_json: unsupported subscript %s' % ast.unparse(e))
         if isinstance(e, ast.Dict):
             return {self._hashable(self.ev(k, env)): v for k, v in zip(e.keys, e.values)}
+        if isinstance(e, ast.Call) and isinstance(e.func, ast.Attribute) and e.func.attr == 'get' and 1 <= len(e.args) <= 2 and not e.keywords \
+                and isinstance(e.func.value, (ast.Dict, ast.Name)):
+            # a lookup table: {STATE: NEXT, ..}.get(cur_state[, default])
+            try:
+                b = self.ev(e.func.value, env)
+            except AnalysisError:
+                b = None
+            if isinstance(b, dict):
+                idx = self._hashable(self.ev(e.args[0], env))
+                if idx in b:
+                    v = b[idx]
+                    return self.ev(v, env) if isinstance(v, ast.AST) else v
+                return self.ev(e.args[1], env) if len(e.args) == 2 else None
         if isinstance(e, ast.Call):
             return self.call(e, env)
         if isinstance(e, ast.JoinedStr):
